@@ -111,3 +111,8 @@ def fail(key, detail):
                     HITS[pat] = '%s :: %s' % (key, detail)
                 return ok()
         return '%s :: %s' % (key, detail)
+
+
+def not_applicable(what, detail):
+    """the harness cannot judge this code (a seam it relies on has moved): reported as INCONCLUSIVE, never as a violation"""
+    return 'HARNESS:%s :: %s' % (what, detail)
